@@ -621,8 +621,10 @@ class C16(Engine):
         if moved:
             if post["PWD"] != pre["PWD"] and post["OLDPWD"] != pre["PWD"]:
                 self._viol("oldpwd.prev", f"$OLDPWD={post['OLDPWD']!r} after leaving {pre['PWD']!r}", **base)
-            elif post["PWD"] == pre["PWD"] and post["OLDPWD"] not in (pre["PWD"], pre["OLDPWD"]):
-                self._viol("oldpwd.prev", f"$OLDPWD={post['OLDPWD']!r} after a change to the same directory {pre['PWD']!r}", **base)
+            elif post["PWD"] == pre["PWD"] and post["OLDPWD"] != pre["PWD"]:
+                # (a successful change to the directory the shell is already in is still a change: the directory it was in
+                #  just before - the same one - is the previous directory, as in bash / POSIX cd)
+                self._viol("oldpwd.prev", f"$OLDPWD={post['OLDPWD']!r} after a successful change to the same directory {pre['PWD']!r} (it was {pre['OLDPWD']!r} before)", **base, same_dir=True)
         elif post["OLDPWD"] != pre["OLDPWD"] or post["PWD"] != pre["PWD"]:
             self._viol("oldpwd.prev", f"an operation that does not change directory altered $PWD/$OLDPWD: {pre['PWD']!r},{pre['OLDPWD']!r} -> {post['PWD']!r},{post['OLDPWD']!r}", **base)
         if new_stack is not None and post["stack"] != new_stack:
